@@ -252,10 +252,14 @@ func init() {
 	register(&PropDef{
 		ID: "C21",
 		Gen: func(t *rapid.T, tier string) *world.Plan {
+			if rapid.IntRange(0, 3).Draw(t, "contention") == 0 {
+				// refusals are wire messages too: requests that meet an active swap on the channel
+				return genContention(t)
+			}
 			return genPlan(t, genOpts{sched: true, premiums: true, duration: []int{300}, inject: junk, maxInject: 3, maxNet: 1})
 		},
 		Monitors:   world.MonitorsFor("C21"),
-		Nontrivial: func(r *world.Result) bool { return probe(r, "inject:junk") && r.Probes["C21:send-checked"] > 0 },
+		Nontrivial: func(r *world.Result) bool { return r.Probes["C21:send-checked"] > 0 },
 	})
 	register(&PropDef{
 		ID: "C22",
